@@ -106,6 +106,7 @@ def run_impl(case):
     lo, hi = fl(case["window"][0]), fl(case["window"][1])
     out["auc"] = [enc(float(s.auc())), enc(float(s.auc(lower=lo, upper=hi)))]
     out["auc_mat"] = [enc(float(m.auc())), enc(float(m.auc(lower=lo, upper=hi)))]
+    out["mixed_dtype"] = tc.mixed_dtype_probe(pos, neg, case["ep"], case["en"], case["sc"], case["ec"], targets) if not case.get("huge") else None
     for xa, ya in (("fnr", "tnr"), ("tnr", "fnr")):
         out["auc"].append(enc(float(s.auc(lower=lo, upper=hi, x_axis=xa, y_axis=ya))))
         out["auc_mat"].append(enc(float(m.auc(lower=lo, upper=hi, x_axis=xa, y_axis=ya))))
@@ -139,6 +140,8 @@ def oracle(case, res):
     r = res["ok"]
     fails = []
     cfg = case["sc"] + "-" + case["ec"]
+    if r.get("mixed_dtype"):
+        fails.append((f"C09/thresholds/int-typed-class/{cfg}", r["mixed_dtype"]))
     for j, t in enumerate(case["thr"]):
         if r["cm"][j] != r["cm_mat"][j]:
             fails.append((f"C09/cm/{cfg}", f"threshold {t}: virtual {r['cm'][j]} vs materialised {r['cm_mat'][j]}"))
